@@ -799,6 +799,13 @@ func (c *VirtualTable) Begin(ctx context.Context) error {
 	return nil
 }
 
+// InTransaction reports whether a transaction that wrote to the table is
+// still open: the tree then holds uncommitted changes, which s3db_refresh
+// would drop and s3db_vacuum would publish. (A read-only table never has any.)
+func (c *VirtualTable) InTransaction() bool {
+	return c.txStart != nil && !c.S3Options.ReadOnly
+}
+
 func (c *VirtualTable) Commit(ctx context.Context) error {
 	dbg("COMMIT\n")
 	if c.txBroken != nil {
@@ -923,6 +930,9 @@ func Vacuum(ctx context.Context, tableName string, beforeTime time.Time) error {
 	table := GetTable(tableName)
 	if table == nil {
 		return fmt.Errorf("table not found: %s", tableName)
+	}
+	if table.InTransaction() {
+		return fmt.Errorf("cannot vacuum %s from within a transaction that wrote to it", tableName)
 	}
 
 	// The tree counts time in int64 nanoseconds (years 1678 to 2262): a cutoff
